@@ -601,6 +601,37 @@ theorem healthyOwner_eligible (self : α) (U r : List α) :
     · simp only [c]
       exact ih
 
+theorem eligible_self (self : α) (U : List α) : eligible self U self = true := by
+  unfold eligible; simp
+
+/-- two entry nodes (each a member of the ranked list) whose eligibility views agree on the two nodes
+    they choose, choose the same node -/
+theorem healthyOwner_agree (s₁ s₂ : α) (U₁ U₂ r : List α) (h₁ : s₁ ∈ r) (h₂ : s₂ ∈ r)
+    (ha : eligible s₁ U₁ (healthyOwner s₁ U₁ r) = eligible s₂ U₂ (healthyOwner s₁ U₁ r))
+    (hb : eligible s₁ U₁ (healthyOwner s₂ U₂ r) = eligible s₂ U₂ (healthyOwner s₂ U₂ r)) :
+    healthyOwner s₁ U₁ r = healthyOwner s₂ U₂ r := by
+  induction r with
+  | nil => simp at h₁
+  | cons x t ih =>
+    rw [healthyOwner_cons s₁ U₁] at ha ⊢
+    rw [healthyOwner_cons s₂ U₂] at hb ⊢
+    by_cases c1 : eligible s₁ U₁ x = true <;> by_cases c2 : eligible s₂ U₂ x = true
+    · simp [c1, c2]
+    · simp [c1, c2] at ha
+    · simp [c1, c2] at hb
+    · simp only [c1, c2] at ha hb ⊢
+      have n1 : s₁ ≠ x := by intro e; subst e; exact c1 (eligible_self _ _)
+      have n2 : s₂ ≠ x := by intro e; subst e; exact c2 (eligible_self _ _)
+      apply ih
+      · rcases List.mem_cons.mp h₁ with h | h
+        · exact absurd h n1
+        · exact h
+      · rcases List.mem_cons.mp h₂ with h | h
+        · exact absurd h n2
+        · exact h
+      · exact ha
+      · exact hb
+
 /-! ## Go's string order is a total order -/
 namespace Real
 
